@@ -342,6 +342,30 @@ def compileArms (pos k : Nat) : CArms → List Instr
     compilePats pos k pb pats ++ [.jump over, .pop] ++ cb ++ [.jump (over + bytes cr)] ++ cr
 end
 
+/-! ## code sizes
+
+The number of code bytes of an expression does not depend on where it is placed: `sizeE e` is
+`bytes (compile pos k e)` for every `pos`, `k` (`bytes_compile` in `Correct.lean`).  The
+statement compiler uses it to know the end of a loop before it compiles the loop's body. -/
+
+mutual
+def sizeE : CExpr → Nat
+  | .lit _ => 3
+  | .tru | .fls | .null => 1
+  | .un _ e => sizeE e + 1
+  | .bin _ a b => sizeE a + sizeE b + 1
+  | .lt a b | .le a b => sizeE b + sizeE a + 1
+  | .and a b => sizeE a + 3 + 1 + sizeE b
+  | .or a b => sizeE a + 3 + 3 + 1 + sizeE b
+  | .ite c t e => sizeE c + 3 + sizeE t + 3 + sizeE e
+  | .gget _ => 3
+  | .gset _ e => sizeE e + 3
+  | .matchE s arms => sizeE s + sizeArms arms
+def sizeArms : CArms → Nat
+  | .last d => 3 + 3 + 1 + sizeE d
+  | .cons pats body rest => patsBytes pats + 3 + 1 + sizeE body + 3 + sizeArms rest
+end
+
 /-! ## the machine -/
 
 structure St where
